@@ -29,6 +29,12 @@ pg between updates); pairs of optimizers sharing one strategy object; per-call p
 clone / strided / slice / transposed views with sentinels; parameters that are views of larger buffers; caller edits of
 `optimizer.reject` and `param_groups` between calls; shared solver / kernel objects; extreme-but-valid settings
 (reject 24/40, hyper-parameters 1e±30, scales 1e±8, start on the optimum); mixed-regime items in the loss stream.
+Hardening pass 2 (kinds 10–18): argument combinations (weight in ctor / step, explicit correctors, kernel spellings,
+positional / keyword constructors and step(), input containers, folded target, frozen parameters), the user's model
+raising inside step() (atomic before the first trial), twins = the same history under a value-preserving variation (grad
+modes, operands requiring grad, containers, call styles, state_dict copy of the optimizer taking over while the original is
+used in between, copy / deepcopy / pickle of the strategy), interleaved groups of GN / LM / dtypes, special sizes and
+rank-3 outputs, trial losses a couple of ulps worse / better.
 Oracles on the real code (each is a clause of the property itself, evaluated directly):
   true-loss, monotone-unless-exhausted, restore, solver-raise, trials ≤ reject+1, state continuity,
   documented strategy transition, [min,max] bounds, GN bookkeeping, purity of the caller's tensors / buffers / callback
@@ -411,8 +417,10 @@ def build_problem(scn):
                 out = (A @ self.theta).view(M, d)
                 if frozen:
                     out = out + self.off
-                return out - bt if fold else out
-        return Lin(), A.to(dt), (None if fold else bt)
+                out = out - bt if fold else out
+                return out.view(1, M, d) if out3d else out         # rank-3 output: the residual dimension is the LAST one
+        out3d = bool(scn.get("out3d"))
+        return Lin(), A.to(dt), (None if fold else (bt.view(1, M, d) if out3d else bt))
     if fam == "cubic":
         n = scn["n"]
         theta0 = (_rand(g, n) * scn["start"] + 2.0)
@@ -777,16 +785,6 @@ def optimizer_attrs(opt, is_lm, kind=None) -> dict:
 
 
 ARGNAME = {"lin": "A", "cubic": "x", "rosen": "c", "expfit": "tt", "atan": "c", "so3": "inp", "se3": "inp", "script1d": "x"}
-STRICT = bool(int(__import__("os").environ.get("C08_STRICT", "0")))
-
-
-def km_forward_raise(kf, case):
-    """known-findings matcher: non-atomic step() after the user's model raised during a trial"""
-    return kf.get("site") == "LevenbergMarquardt.step:model.loss" and bool(case.get("fwd_raise"))
-
-
-def km_returned_alias(kf, case):
-    return kf.get("site") == "LevenbergMarquardt.step:return self.loss" and case.get("kind") == "alias-probe"
 
 
 def make_weight(scn, module, inp, dt):
@@ -937,23 +935,41 @@ def _scenario_steps(ctx: Ctx, scn, collect, shared_inner=None, sink=None):
     w_ctor, w_step = make_weight(scn, module, inp, getattr(torch, scn["dtype"]))
     positional = scn.get("ctor_style") == "positional"
     vec = scn.get("vectorize", True)
-    if is_lm:
-        strat = RecStrategy(shared_inner if shared_inner is not None else make_strategy(scn["strategy"], positional))
-        strat.module = module
-        if positional:
-            opt = P.optim.LM(module, solver, strat, kern, corr, w_ctor, scn["reject"], scn["lm_min"], scn["lm_max"], vec)
+
+    def construct(mod, solver_, inner_):
+        """optimizer for `mod` exactly as the scenario prescribes"""
+        solver_.module = mod
+        if is_lm:
+            strat_ = RecStrategy(inner_)
+            strat_.module = mod
+            if positional:
+                opt_ = P.optim.LM(mod, solver_, strat_, kern, corr, w_ctor, scn["reject"], scn["lm_min"], scn["lm_max"], vec)
+            else:
+                opt_ = P.optim.LM(mod, solver=solver_, strategy=strat_, kernel=kern, corrector=corr, weight=w_ctor,
+                                  reject=scn["reject"], min=scn["lm_min"], max=scn["lm_max"], vectorize=vec)
         else:
-            opt = P.optim.LM(module, solver=solver, strategy=strat, kernel=kern, corrector=corr, weight=w_ctor,
-                             reject=scn["reject"], min=scn["lm_min"], max=scn["lm_max"], vectorize=vec)
-    else:
-        strat = None
-        if positional:
-            opt = P.optim.GN(module, solver, kern, corr, w_ctor, vec)
-        else:
-            opt = P.optim.GN(module, solver=solver, kernel=kern, corrector=corr, weight=w_ctor, vectorize=vec)
-    solver.opt = opt
+            strat_ = None
+            if positional:
+                opt_ = P.optim.GN(mod, solver_, kern, corr, w_ctor, vec)
+            else:
+                opt_ = P.optim.GN(mod, solver=solver_, kernel=kern, corrector=corr, weight=w_ctor, vectorize=vec)
+        solver_.opt = opt_
+        return opt_, strat_
+    opt, strat = construct(module, solver, (shared_inner if shared_inner is not None else make_strategy(scn["strategy"], positional))
+                           if is_lm else None)
     call_style = scn.get("call_style", "positional")
     grad_mode = scn.get("grad_mode")
+
+    def do_step(o_, a_, t_):
+        """step(input, target, weight) in the scenario's spelling"""
+        kw = {"weight": w_step} if w_step is not None else {}
+        if call_style == "keyword":
+            return o_.step(input=a_, target=t_, **kw)
+        if call_style == "mixed":
+            return o_.step(a_, target=t_, **kw)
+        if w_step is not None:
+            return o_.step(a_, t_, w_step)
+        return o_.step(a_, t_)
     fwd_raise = {int(c): v for c, v in (scn.get("fwd_raise") or [])}      # call -> "pre" | trial index
     arm = {"phase": None}
     inner_forward = module.forward
@@ -1017,15 +1033,26 @@ def _scenario_steps(ctx: Ctx, scn, collect, shared_inner=None, sink=None):
                     prev_pg = None                      # continuity is re-based on the edited group
         if copy_at is not None and call == copy_at:
             ctx.count(f"class.copy.{copy_what}")
-            if copy_what == "optimizer":
-                # deep copy of the whole optimizer (model, solver, strategy, param groups, caches); from now on the COPY is
-                # observed, the original keeps being used in between (each must follow its own law)
+            if copy_what == "state_dict":
+                # the documented way to copy an optimizer (copy.deepcopy of a torch Optimizer keeps only defaults / state /
+                # param_groups and is unusable for LM/GN on the unchanged tree — observation, see notes): deep copy of the
+                # model, a fresh optimizer with the same arguments, load_state_dict. From now on the COPY is observed, the
+                # original keeps being used in between (each must follow its own law).
                 orig = {"opt": opt, "solver": solver}
-                opt = _copy.deepcopy(opt)
-                module, solver, strat = opt.model.model, opt.solver, (opt.strategy if is_lm else None)
+                sd = _copy.deepcopy(opt.state_dict())
+                module = _copy.deepcopy(module)
+                solver2 = RecSolver(solver.inner, solver.plan)
+                solver2.nsolve, solver2.limit = solver.nsolve, solver.limit
+                inner2 = _copy.deepcopy(strat.inner) if is_lm else None
+                solver = solver2
+                opt, strat = construct(module, solver, inner2)
+                opt.load_state_dict(sd)
+                if is_lm:
+                    opt.reject = reject
                 inner_forward = module.forward
                 pbufs, handed_out, kinds = [], [], lie_kinds(module)
                 pg = opt.param_groups[0]
+                prev_pg = None
             elif is_lm and copy_what in ("strategy-deepcopy", "strategy-copy", "strategy-pickle"):
                 strat.inner = (_copy.deepcopy(strat.inner) if copy_what == "strategy-deepcopy" else
                                _copy.copy(strat.inner) if copy_what == "strategy-copy" else
@@ -1058,23 +1085,21 @@ def _scenario_steps(ctx: Ctx, scn, collect, shared_inner=None, sink=None):
             for t_ in (list(inp_c.values()) if isinstance(inp_c, dict) else list(inp_c) if isinstance(inp_c, (tuple, list)) else [inp_c]):
                 if isinstance(t_, torch.Tensor) and not isinstance(t_, P.LieTensor) and t_.is_floating_point() and t_.grad_fn is None:
                     t_.requires_grad_(True)
-        gctx = (torch.enable_grad() if grad_mode == "enable_grad" else torch.no_grad() if grad_mode == "no_grad" else
-                torch.inference_mode() if grad_mode == "inference" else contextlib.nullcontext())
-        snap = {"loss": float(opt.loss) if had_cache else None, "last": float(opt.last) if hasattr(opt, "last") else None,
+        gctx2 = lambda: (torch.enable_grad() if grad_mode == "enable_grad" else torch.no_grad() if grad_mode == "no_grad" else
+                         torch.inference_mode() if grad_mode == "inference" else contextlib.nullcontext())
+        gctx = gctx2()
+        def ff(x):
+            try:
+                return float(x)
+            except Exception:
+                return repr(x)
+        snap = {"loss": ff(opt.loss) if had_cache else None, "last": ff(opt.last) if hasattr(opt, "last") else "<absent>",
                 "rc": getattr(opt, "reject_count", None), "pg": pg_state(pg) if is_lm else None}
         arm["phase"] = fwd_raise.get(call)
         ctx.count(f"class.call-style.{call_style}") if call == 0 else None
         with contextlib.redirect_stdout(io.StringIO()), gctx:
             try:
-                kw = {"weight": w_step} if w_step is not None else {}
-                if call_style == "keyword":
-                    ret = opt.step(input=inp_c, target=tgt_c, **kw)
-                elif call_style == "mixed":
-                    ret = opt.step(inp_c, target=tgt_c, **kw)
-                elif w_step is not None:
-                    ret = opt.step(inp_c, tgt_c, w_step)
-                else:
-                    ret = opt.step(inp_c, tgt_c)
+                ret = do_step(opt, inp_c, tgt_c)
             except ModelFailure:
                 exc = "model"
             except TrialLimit:
@@ -1107,6 +1132,11 @@ def _scenario_steps(ctx: Ctx, scn, collect, shared_inner=None, sink=None):
                 state_changed.append("optimizer.loss")
             if is_lm and pg_state(pg) != snap["pg"]:
                 state_changed.append("param group")
+            if phase == "pre":
+                if (ff(opt.last) if hasattr(opt, "last") else "<absent>") != snap["last"]:
+                    state_changed.append("optimizer.last")
+                if getattr(opt, "reject_count", None) != snap["rc"]:
+                    state_changed.append("optimizer.reject_count")
             if sink is not None:
                 sink.append({"ret": "exc:model", "params": now})
             if phase == "pre":
@@ -1120,11 +1150,10 @@ def _scenario_steps(ctx: Ctx, scn, collect, shared_inner=None, sink=None):
                 msg = (f"atomic: the model raised while the loss of trial {phase} was evaluated (call {call}): the parameters stay at the "
                        f"trial point (moved: {moved}) but optimizer.loss = {float(opt.loss) if hasattr(opt, 'loss') else None!r} is the loss of the "
                        f"old parameters (loss at the parameters left behind: {t_now!r})")
-                if STRICT:
-                    ctx.fail(scn, msg, known_matcher=km_forward_raise)
-                elif not any(n_.startswith("probe: atomic") for n_ in ctx.notes):
-                    ctx.notes.append("probe: " + msg + " [observation, see notes/C08.md; C08_STRICT=1 makes it a verdict]")
+                if not any(n_.startswith("probe: atomic") for n_ in ctx.notes):
+                    ctx.notes.append("probe: " + msg + " [observation outside the property's text, see notes/C08.md]")
                 return              # the cache is now stale by construction: nothing further can be checked
+            prev_pg = pg_state(pg) if is_lm else None      # earlier trials of this call legitimately updated the group
             continue
         sol = solver.log[s0:]
         ups = strat.log[u0:] if strat else []
@@ -1151,7 +1180,8 @@ def _scenario_steps(ctx: Ctx, scn, collect, shared_inner=None, sink=None):
             orig["solver"].call, orig["solver"].trial = call, 0
             with contextlib.redirect_stdout(io.StringIO()):
                 try:
-                    r_o = float(orig["opt"].step(inp_c, tgt_c))
+                    with gctx2():
+                        r_o = float(do_step(orig["opt"], inp_c, tgt_c))
                 except (ScriptedFailure, Exception) as e_:
                     r_o = f"exc:{type(e_).__name__}"
             if sink is not None:
@@ -2007,7 +2037,82 @@ def gen_scenario(rng, quick, opt="lm"):
         scn["bad"] = [0] * ncalls
         scn["good_scale"] = rng.choice([1.0, 1.0, 0.5, -2.0, 3.0])
     harden_scenario(rng, scn)
+    harden2_scenario(rng, scn)
     return scn
+
+
+SIZES = [(1, 1, 1), (3, 3, 3), (3, 1, 3), (1, 3, 3), (2, 3, 2), (5, 2, 3), (7, 1, 1), (3, 3, 1), (2, 1, 6), (4, 5, 1)]
+
+
+def harden2_scenario(rng, scn):
+    """argument combinations of constructors / step(), frozen parameters, the user's model raising, special sizes"""
+    fam, opt, ncalls = scn["family"], scn["opt"], scn["ncalls"]
+    single = fam not in ("mixed", "script1d")
+    if single and rng.random() < 0.15:
+        scn["weight"] = {"where": rng.choice(["ctor", "step", "both"]), "shape": rng.choice(["dd", "dd", "Mdd"]),
+                         "scale": rng.choice([1.0, 1e-3, 50.0])}
+    if rng.random() < 0.15:
+        scn["corrector"] = rng.choice(["fast", "triggs"])          # with or without a kernel
+    if scn.get("kernel") is not None and isinstance(scn["kernel"][0], str) and rng.random() < 0.3:
+        scn["kernel_wrap"] = "list1"
+    if fam == "lin":
+        if rng.random() < 0.2:
+            scn["frozen"] = rng.choice(["first", "last"])
+        if rng.random() < 0.2:
+            scn["fold_target"] = True
+        if rng.random() < 0.25:
+            scn["n"], scn["M"], scn["d"] = rng.choice(SIZES)
+        if rng.random() < 0.2:
+            scn["out3d"] = True
+    if rng.random() < 0.2:
+        scn["call_style"] = rng.choice(["keyword", "mixed"])
+    if rng.random() < 0.15:
+        scn["ctor_style"] = "positional"
+    if fam in ARGNAME and fam != "script1d" and rng.random() < 0.2:
+        scn["input_container"] = rng.choice(["tuple", "list", "dict"])
+    if rng.random() < 0.1:
+        scn["grad_mode"] = rng.choice(["enable_grad", "no_grad"])
+        scn["input_requires_grad"] = rng.random() < 0.5
+    if rng.random() < 0.12:
+        c = rng.randrange(ncalls)
+        k = (scn.get("bad") or [0] * ncalls)[c] if c < len(scn.get("bad") or []) else 0
+        scn["fwd_raise"] = [[c, rng.choice(["pre", "pre", rng.randint(0, max(0, min(k, scn.get("reject", 0))))])]]
+        if opt == "gn":
+            scn["fwd_raise"] = [[c, "pre"]]
+
+
+TWIN_VARIANTS = [{"call_style": "keyword"}, {"call_style": "mixed"}, {"ctor_style": "positional"}, {"input_container": "tuple"},
+                 {"input_container": "list"}, {"input_container": "dict"}, {"grad_mode": "enable_grad"},
+                 {"grad_mode": "enable_grad", "input_requires_grad": True}, {"grad_mode": "no_grad"}, {"kernel_wrap": "list1"},
+                 {"forms": ["clone"]}, {"copy_what": "state_dict"}, {"copy_what": "strategy-deepcopy"}, {"copy_what": "strategy-copy"},
+                 {"copy_what": "strategy-pickle"}, {"scalar_input": True},
+                 {"call_style": "keyword", "ctor_style": "positional", "input_container": "dict"},
+                 {"copy_what": "state_dict", "grad_mode": "enable_grad", "call_style": "mixed"}]
+
+
+def twin_scenarios(rng, n, quick=True, opt=None):
+    out = []
+    for _ in range(n):
+        scn = gen_scenario(rng, quick, opt or rng.choice(["lm", "lm", "lm", "gn"]))
+        for k in ("fwd_raise", "pg_edits", "reject_edits"):
+            scn.pop(k, None)
+        scn["ncalls"] = max(3, min(scn["ncalls"], 6))
+        var = dict(rng.choice(TWIN_VARIANTS))
+        if "copy_what" in var:
+            if scn["opt"] == "gn" and var["copy_what"] != "state_dict":
+                var["copy_what"] = "state_dict"
+            var["copy_at"] = rng.randrange(1, scn["ncalls"])
+            scn.pop("param_view", None)
+        if "input_container" in var and scn["family"] == "mixed":
+            var = {"call_style": "keyword"}
+        if "kernel_wrap" in var and (scn.get("kernel") is None or not isinstance(scn["kernel"][0], str)):
+            scn["kernel"] = ["huber", 0.5]
+        if "scalar_input" in var and scn["family"] not in ("rosen", "atan"):
+            scn["family"] = "rosen"
+            scn.pop("weight", None)
+        scn["twin"] = var
+        out.append(scn)
+    return out
 
 
 def harden_scenario(rng, scn):
@@ -2039,11 +2144,13 @@ def harden_scenario(rng, scn):
         scn["start"] = 0.0 if fam in ("lin", "so3", "se3") else scn["start"]
 
 
-def script_scenarios(rng, rejects, kinds, ncalls_extra=True):
+def script_scenarios(rng, rejects, kinds, ncalls_extra=True, ks=None):
     """scripted 1-D: every ending after every k ≤ reject+1 rejections; plus multi-call mixes"""
     out = []
     for reject in rejects:
         for k in range(0, reject + 2):
+            if ks is not None and k not in ks:
+                continue
             for end in "BEXW":
                 s = "W" * k + end
                 for kind in kinds:
@@ -2067,6 +2174,8 @@ def run_opt_stream(ctx: Ctx, scns):
     for i, scn in enumerate(scns):
         if scn.get("pair"):
             run_pair(ctx, scn, collect)
+        elif scn.get("twin"):
+            run_twin(ctx, scn, collect)
         else:
             run_optimizer_scenario(ctx, scn, collect)
         if i < 2:
@@ -2085,17 +2194,69 @@ def run_opt_stream(ctx: Ctx, scns):
     settle_gn(ctx, collect["gn"])
 
 
+TWIN_KEYS = ("call_style", "ctor_style", "input_container", "scalar_input", "grad_mode", "input_requires_grad", "kernel_wrap",
+             "copy_at", "copy_what", "forms")
+
+
+def run_twin(ctx: Ctx, scn, collect):
+    """the same history twice: once plainly, once with a variation that must not change any VALUE (keyword instead of
+    positional arguments, another container for the input, grad mode, operands requiring grad, a deep copy / pickle of the
+    optimizer or strategy taking over in the middle, a one-element kernel list). Bitwise equal observations required."""
+    base = {k: v for k, v in scn.items() if k != "twin" and k not in TWIN_KEYS}
+    var = {**base, **scn["twin"]}
+    sa, sb = [], []
+    run_optimizer_scenario(ctx, base, collect, sink=sa)
+    n0 = len(ctx.failures)
+    run_optimizer_scenario(ctx, var, collect, sink=sb)
+    for f in ctx.failures[n0:]:
+        if f["case"] is var:
+            f["case"] = scn
+    what = ", ".join(f"{k}={v}" for k, v in scn["twin"].items())
+    ctx.count("class.twin." + "+".join(sorted(scn["twin"])))
+    if len(sa) != len(sb):
+        ctx.fail(scn, f"twin: with [{what}] the history has {len(sb)} completed calls instead of {len(sa)}")
+        return
+    for i, (a, b) in enumerate(zip(sa, sb)):
+        diffs = []
+        for key in ("ret", "pg", "rc", "last", "ntr"):
+            va, vb = a.get(key), b.get(key)
+            if key in ("last", "ret") and scn["twin"].get("copy_what") == "state_dict" and isinstance(va, float) and isinstance(vb, float):
+                # the copy has no loss cache: it recomputes the loss at the (possibly restored) parameters — equal up to the
+                # round-off of the restore (theorem cache_transparent); a call ended by a raising solve returns that value
+                if abs(va - vb) <= 4096 * EPS[scn["dtype"]] * max(abs(va), abs(vb)):
+                    continue
+            if key == "last" and scn["twin"].get("copy_what") == "state_dict" and (va is None or vb is None):
+                continue            # `last` is not part of the state dict: a fresh copy has none until its first completed step
+            if va != vb and not (isinstance(va, float) and isinstance(vb, float) and math.isnan(va) and math.isnan(vb)):
+                diffs.append(f"{key}: {va!r} -> {vb!r}")
+        if "params" in a and "params" in b and (len(a["params"]) != len(b["params"]) or
+                                                  any(not torch.equal(x, y) for x, y in zip(a["params"], b["params"]))):
+            diffs.append("parameters differ")
+        if "orig_ret" in b and b["orig_ret"] != a.get("ret"):
+            diffs.append(f"the original optimizer, used in between, returned {b['orig_ret']!r} instead of {a.get('ret')!r}")
+        if diffs:
+            ctx.fail(scn, f"twin: call {i} gives different values with [{what}]: " + "; ".join(diffs))
+            return
+
+
 def run_pair(ctx: Ctx, scn, collect):
     """two LM optimizers on two different problems share ONE strategy object; their step() calls are interleaved
     (`pattern`: string over A/B). Each has its own param group, so each must behave exactly as if it were alone."""
-    other = dict(scn["pair"]["other"])
-    other["strategy"] = scn["strategy"]
-    other["pair_role"] = "B"
-    inner = make_strategy(scn["strategy"])
-    gens = {"A": scenario_steps(ctx, scn, collect, inner), "B": scenario_steps(ctx, other, collect, inner)}
-    # failures found while running B are reported with the whole pair so that the replay re-creates the sharing
+    spec = scn["pair"]
+    share = spec.get("share_strategy", True)
+    others = [dict(o) for o in (spec.get("others") or [spec["other"]])]
+    inner = make_strategy(scn["strategy"]) if (share and scn["opt"] == "lm") else None
+    gens = {"A": scenario_steps(ctx, scn, collect, inner)}
+    for i, o in enumerate(others):
+        if share and o["opt"] == "lm":
+            o["strategy"] = scn["strategy"]
+        o["pair_role"] = "BCDE"[i]
+        gens["BCDE"[i]] = scenario_steps(ctx, o, collect, inner if o["opt"] == "lm" else None)
+    ctx.count(f"class.interleaved-group.{len(gens)}{'.shared-strategy' if share else ''}")
+    # failures found while running the others are reported with the whole group so that the replay re-creates it
     n0 = len(ctx.failures)
-    for ch in scn["pair"]["pattern"] + "AB" * 40:
+    names = "".join(gens)
+    for ch in spec["pattern"] + names * 40:
         if ch in gens:
             try:
                 next(gens[ch])
@@ -2104,9 +2265,9 @@ def run_pair(ctx: Ctx, scn, collect):
         if not gens:
             break
     for f in ctx.failures[n0:]:
-        if f["case"] is other:
+        if any(f["case"] is o for o in others):
             f["case"] = scn
-            f["what"] += " [second optimizer of a pair sharing one strategy object]"
+            f["what"] += " [another optimizer of an interleaved group" + (" sharing one strategy object]" if share else "]")
 
 
 def pair_scenarios(rng, n, quick=True):
@@ -2132,7 +2293,7 @@ def corpus_scenarios():
     out = []
     # every ending after every k <= reject+1 rejections, three strategies, three calls (counter / cache / damping carry over)
     out += script_scenarios(rc, [0, 1, 3], ["constant", "adaptive", "trust"])
-    out += script_scenarios(rc, [16], ["trust"])
+    out += script_scenarios(rc, [16], ["trust"], ks={0, 1, 8, 15, 16, 17})
     dflt = {"constant": {"kind": "constant", "damping": 1e-4, "high": 0.5, "low": 1e-3, "up": 2.0, "down": 0.5, "factor": 0.5,
                          "min": 1e-6, "max": 1e16},
             "adaptive": {"kind": "adaptive", "damping": 1e-2, "high": 0.5, "low": 1e-3, "up": 3.0, "down": 0.4, "factor": 0.5,
@@ -2180,6 +2341,62 @@ def corpus_scenarios():
     for fam in ("lin", "so3"):
         out.append({**base(fam, "constant", M=1), "opt": "gn", "ncalls": 5, "raise_at": [1, 3], "forms": ["strided", "plain", "slice"],
                     "kernel": ["huber", 1.0], "solver": "pinv", "good_scale": 0.5})
+    # ---- hardening pass 2
+    for kind in ("constant", "adaptive", "trust"):
+        # accept test without tolerance: a trial a couple of ulps worse / better after k rejections
+        for reject in (0, 2):
+            for k in range(0, reject + 1):
+                for end in "UL":
+                    out.append({"kind": "opt", "opt": "lm", "family": "script1d", "fam_seed": 0, "dtype": ("float64", "float32")[k % 2],
+                                "reject": reject, "ncalls": 2, "scripts": ["W" * k + end, "B"], "start": 3.0, "lm_min": 1e-6,
+                                "lm_max": 1e32, "solver": "solve", "kernel": None, "strategy": dict(dflt[kind]), "n": 1, "M": 1, "d": 1})
+        # the user's model raising: before the first trial of every call (atomic: verdict) / during a trial (observation)
+        out.append(base("atan", kind, start=0.2, ncalls=5, fwd_raise=[[0, "pre"], [2, "pre"], [3, "pre"]]))
+        out.append(base("lin", kind, bad=[1, 2, 0, 1], good_scale=0.3, ncalls=4, fwd_raise=[[1, "pre"]], kernel=["huber", 0.5]))
+        out.append(base("lin", kind, bad=[2, 2, 0, 0], good_scale=0.3, ncalls=3, fwd_raise=[[1, 1]]))
+        # argument combinations: kernel xor corrector, weight in constructor xor step, frozen parameter, folded target,
+        # keyword / positional, containers, single kernel for several outputs in every spelling
+        for i, combo in enumerate([
+                {"kernel": ["huber", 0.5], "corrector": None}, {"kernel": None, "corrector": "fast"},
+                {"kernel": ["cauchy", 1.0], "corrector": "triggs"}, {"weight": {"where": "ctor", "shape": "dd"}},
+                {"weight": {"where": "step", "shape": "Mdd"}}, {"weight": {"where": "both", "shape": "dd"}, "kernel": ["pseudohuber", 1.0]},
+                {"frozen": "first"}, {"frozen": "last", "fold_target": True, "call_style": "keyword"},
+                {"fold_target": True, "input_container": "dict", "ctor_style": "positional"},
+                {"input_container": "list", "call_style": "mixed", "weight": {"where": "step", "shape": "dd"}}]):
+            n_, M_, d_ = SIZES[i % len(SIZES)]
+            out.append(base("lin", kind, n=n_, M=M_, d=d_, bad=[1, 0, 2, 0], good_scale=0.3, **combo))
+        for kspec in (["huber", 0.3], [["huber", 0.3]], [["huber", 0.3], None], [["cauchy", 1.0], ["pseudohuber", 0.5]]):
+            kk = kspec[0] if (len(kspec) == 1 and isinstance(kspec[0], list)) else kspec
+            out.append(base("mixed", kind, M=1, kernel=kk, kernel_wrap=("list1" if len(kspec) == 1 else None), start=0.5,
+                            bad=[1, 0, 1, 0], good_scale=0.3, ncalls=3))
+        # special sizes (feature dimension 3, batch = feature dimension, 1, primes), also with a rank-3 output
+        for i, (n_, M_, d_) in enumerate(SIZES):
+            out.append(base("lin", kind, n=n_, M=M_, d=d_, ncalls=2, bad=[1, 0], good_scale=0.5, kernel=["huber", 1.0],
+                            out3d=(i % 2 == 0)))
+    # value-preserving variations (twins), every kind once per strategy family
+    for i, var in enumerate(TWIN_VARIANTS):
+        kind = ("constant", "adaptive", "trust")[i % 3]
+        fam = "rosen" if "scalar_input" in var else "lin" if "input_requires_grad" in var else ("lin", "atan", "se3")[i % 3]
+        b = base(fam, kind, start=0.3 if fam != "lin" else 1.0, bad=[1, 2, 0, 1], good_scale=0.3, ncalls=4, raise_at=[3],
+                 kernel=["huber", 0.5] if "kernel_wrap" in var else None, M=2)
+        v = dict(var)
+        if "copy_what" in v:
+            v["copy_at"] = 2
+        b["twin"] = v
+        out.append(b)
+        if "copy_what" in var or "grad_mode" in var:
+            g = {**base("lin", "constant", ncalls=4, M=2), "opt": "gn", "good_scale": 0.5, "raise_at": [1]}
+            if var.get("copy_what", "state_dict") == "state_dict":
+                g["twin"] = {**var, **({"copy_at": 2} if "copy_what" in var else {})}
+                out.append(g)
+    # interleaved groups without sharing: GN and LM, float32 and float64, Lie and Euclidean, several orders
+    for pattern in ("ABCABCABC", "CBACBAABC", "AAABBBCCC"):
+        a = base("lin", "trust", bad=[1, 0, 2, 0], good_scale=0.3, ncalls=3)
+        b2 = {**base("so3", "constant", M=2, start=0.5, ncalls=3, dtype="float32", fam_seed=5), "opt": "gn", "good_scale": 0.5}
+        c2 = base("se3", "adaptive", M=1, start=0.5, ncalls=3, dtype="float32", fam_seed=9, bad=[0, 1, 0], good_scale=0.3,
+                  kernel=["huber", 1.0])
+        a["pair"] = {"others": [b2, c2], "pattern": pattern, "share_strategy": False}
+        out.append(a)
     # two optimizers sharing one strategy object
     for kind in ("adaptive", "trust"):
         a = base("lin", kind, bad=[1, 2, 0, 1], good_scale=0.3, ncalls=4)
@@ -2241,7 +2458,7 @@ def run(ctx: Ctx):
     torch.set_num_threads(1)      # tiny tensors: threads only add contention on a shared box
     reset_shared()
     run_corpus(ctx)
-    run_upd_stream(ctx, ctx.pick(1200, 12000))
+    run_upd_stream(ctx, ctx.pick(1000, 12000))
     run_hist_stream(ctx, ctx.pick(60, 600))
     run_edithist_stream(ctx, ctx.pick(20, 300))
     run_loss_stream(ctx, ctx.pick(80, 800))
@@ -2253,9 +2470,10 @@ def run(ctx: Ctx):
     else:
         scr = script_scenarios(rng, list(range(0, 17)), ["constant", "adaptive", "trust"])
     run_opt_stream(ctx, scr)
-    scns = [gen_scenario(rng, ctx.quick, "lm") for _ in range(ctx.pick(110, 900))]
+    scns = [gen_scenario(rng, ctx.quick, "lm") for _ in range(ctx.pick(90, 900))]
     scns += [gen_scenario(rng, ctx.quick, "gn") for _ in range(ctx.pick(25, 200))]
     scns += pair_scenarios(rng, ctx.pick(8, 80), ctx.quick)
+    scns += twin_scenarios(rng, ctx.pick(20, 250), ctx.quick)
     run_opt_stream(ctx, scns)
 
 
@@ -2308,6 +2526,8 @@ def replay(ctx: Ctx, case) -> bool:
         collect = {"upd": [], "lm": [], "gn": []}
         if c.get("pair"):
             run_pair(ctx, c, collect)
+        elif c.get("twin"):
+            run_twin(ctx, c, collect)
         else:
             run_optimizer_scenario(ctx, c, collect)
         settle_updates(ctx, collect["upd"], "lm-upd")
